@@ -3,6 +3,8 @@
 -/
 import CspuzModel.Proofs.C03Backend
 import CspuzModel.Proofs.C03WT
+import CspuzModel.Proofs.C03Plain
+import CspuzModel.Proofs.C03Java
 namespace Cspuz.Proofs.C03
 open Cspuz Cspuz.Spec Cspuz.Sugar Cspuz.SugarSyntax
 open Cspuz.Proofs.C03Str Cspuz.Proofs.C03Text Cspuz.Proofs.C03Reply Cspuz.Proofs.C03Backend Cspuz.Proofs.C03WT
